@@ -681,6 +681,12 @@ func ruleOwnWrapScoped(r *Run, rels []string, floor int) {
 			n++
 			for _, m := range []string{"Close", "Err"} {
 				fn := p.Method(rel, name, m)
+				if fn != nil && fn.Signature.Recv() != nil {
+					// a method promoted from an embedded struct is not this type's own
+					if rn := namedOf(fn.Signature.Recv().Type()); rn != nil && rn.Obj() != named.Obj() {
+						fn = nil
+					}
+				}
 				rule := map[string]string{"Close": "OWN-WRAP", "Err": "ERR-CHAIN"}[m]
 				o := r.Ob(rule, shortRel(rel)+"."+name+"."+m, m+"() reaches "+m+"() of every wrapped iterator/reader on every path and returns/aggregates its result")
 				if fn == nil {
